@@ -153,6 +153,19 @@ where
     }
 }
 
+// Verification hook (compiled only with `--cfg rustaudio_dasp_verif`): read-only access to the
+// length of the shared backlog, which the public API cannot observe.
+#[cfg(rustaudio_dasp_verif)]
+impl<S> Bus<S>
+where
+    S: Signal,
+{
+    #[doc(hidden)]
+    pub fn verif_backlog_len(&self) -> usize {
+        self.node.borrow().buffer.len()
+    }
+}
+
 impl<S> SharedNode<S>
 where
     S: Signal,
